@@ -124,9 +124,27 @@ func (e *Exec) depGlobalConst(g *ssa.Global) Value {
 	return e.constValue(found)
 }
 
+var sentinelTexts = map[string]string{
+	"context.Canceled":         "context canceled",
+	"context.DeadlineExceeded": "context deadline exceeded",
+	"io.EOF":                   "EOF",
+	"io.ErrUnexpectedEOF":      "unexpected EOF",
+	"io.ErrClosedPipe":         "io: read/write on closed pipe",
+	"strconv.ErrRange":         "value out of range",
+	"strconv.ErrSyntax":        "invalid syntax",
+	"encoding/hex.ErrLength":   "encoding/hex: odd length hex string",
+}
+
 func (e *Exec) sentinelError(g *ssa.Global) Value {
-	// *errors.errorString{s: "<pkg.Name>"}
-	st := StructV{e.constStr(g.Pkg.Pkg.Path() + "." + g.Name())}
+	// *errors.errorString with the documented text of the well-known sentinels; the text of any
+	// other dependency sentinel is opaque (reading it ends the path as unsupported, never wrongly)
+	var txt StrV
+	if t, ok := sentinelTexts[g.Pkg.Pkg.Path()+"."+g.Name()]; ok {
+		txt = e.constStr(t)
+	} else {
+		txt = e.opaqueStr("text of " + g.Pkg.Pkg.Path() + "." + g.Name())
+	}
+	st := StructV{txt}
 	cell := new(Value)
 	*cell = st
 	return IfaceV{t: e.P.errorStringPtr, v: PtrV{cell: cell}}
